@@ -206,6 +206,22 @@ impl Machine {
     /// Some(is_last_step); then only "count 0" is judged, plus "every tuple carries a NaN" when
     /// the underflowing step was the last one executed.
     pub fn run(prog: &[Ins], dir: &Direction, ops: &[C4]) -> (Option<usize>, Option<Vec<C4>>, Option<bool>) {
+        Machine::run_stored(prog, dir, ops, 4)
+    }
+
+    /// The same through a container storing only the first `stored` dimensions: after every step what is
+    /// written to a dimension the container lacks is gone, and reads as height 0 / time NaN again
+    pub fn run_stored(prog: &[Ins], dir: &Direction, ops: &[C4], stored: usize) -> (Option<usize>, Option<Vec<C4>>, Option<bool>) {
+        let truncate = |m: &mut Machine| {
+            for o in m.ops.iter_mut() {
+                if stored < 3 {
+                    o[2] = 0.;
+                }
+                if stored < 4 {
+                    o[3] = f64::NAN;
+                }
+            }
+        };
         let mut m = Machine {
             stack: Vec::new(),
             ops: ops.to_vec(),
@@ -217,8 +233,11 @@ impl Machine {
             prog.iter().rev().collect()
         };
         let last = order.len() - 1;
+        truncate(&mut m);
         for (k, ins) in order.into_iter().enumerate() {
-            match m.step(ins, dir) {
+            let r = m.step(ins, dir);
+            truncate(&mut m);
+            match r {
                 StepResult::Count(c) => n = n.min(c),
                 StepResult::Unspecified => return (None, None, None),
                 StepResult::LegacyUnderflow => return (Some(0), None, Some(k == last)),
@@ -473,6 +492,39 @@ pub fn check_program(prog: &[Ins]) -> Result<u64, (String, Value)> {
                         "result differs from the abstract stack machine".into(),
                         json!({"program": text, "direction": dir_name(&dir), "operands": operands,
                                "model": [mn, format!("{mops:?}")], "observed": [n, format!("{got:?}")]}),
+                    ));
+                }
+            }
+        }
+    }
+    // the same program through containers that store two or three dimensions only: stack traffic addressing a
+    // dimension the container lacks is still consumed and produced
+    if prog.len() <= 2 {
+        for stored in [2usize, 3] {
+            for dir in [Fwd, Inv] {
+                let (mn, mops, legacy_underflow) = Machine::run_stored(prog, &dir, &OPERANDS3, stored);
+                let (Some(mn), Some(mops), None) = (mn, mops, legacy_underflow) else { continue };
+                let res = catch(|| {
+                    let d2 = if dir == Fwd { Fwd } else { Inv };
+                    if stored == 2 {
+                        let mut data: Vec<Coor2D> = OPERANDS3.iter().map(|t| Coor2D([t[0], t[1]])).collect();
+                        let n = ctx.apply(op, d2, &mut data).unwrap_or(usize::MAX);
+                        (n, data.iter().map(|c| vec![c.0[0], c.0[1]]).collect::<Vec<_>>())
+                    } else {
+                        let mut data: Vec<Coor3D> = OPERANDS3.iter().map(|t| Coor3D([t[0], t[1], t[2]])).collect();
+                        let n = ctx.apply(op, d2, &mut data).unwrap_or(usize::MAX);
+                        (n, data.iter().map(|c| vec![c.0[0], c.0[1], c.0[2]]).collect::<Vec<_>>())
+                    }
+                });
+                let (n, got) = match res {
+                    Ok(r) => r,
+                    Err(p) => return Err((format!("panic in apply: {}", panic_class(&p)), json!({"program": text, "direction": dir_name(&dir), "container_dimensions": stored, "panic": p}))),
+                };
+                let same = got.iter().zip(mops.iter()).all(|(g, m)| (0..stored).all(|k| bits(g[k]) == bits(m[k]) || (g[k].is_nan() && m[k].is_nan())));
+                if n != mn || !same {
+                    return Err((
+                        format!("result through a {stored}D container differs from the abstract stack machine"),
+                        json!({"program": text, "direction": dir_name(&dir), "container_dimensions": stored, "model": [mn, format!("{mops:?}")], "observed": [n, format!("{got:?}")]}),
                     ));
                 }
             }
